@@ -12,6 +12,7 @@ type GenOpts struct {
 	Kinds        []TKind
 	WrapPct      int // chance that argument expressions are wrapped in rt.A
 	ShadowPct    int // chance that Params come from variables named like generated identifiers
+	NoInvoke     bool // every task has at least one output; leftovers go to Results
 	GenericPct   int
 	NoConcOption bool
 	ForceCOE     int // parallels: 0 random, 1 always present, 2 never
@@ -123,6 +124,9 @@ func GenFlow(r *Rand, name string, o GenOpts) *Program {
 		t.Fn.Ctx = r.Chance(4, 10)
 		t.Fn.Err = r.Chance(5, 10)
 		nout := r.PickInt(1, 1, 1, 1, 1, 2, 2, 3, 0)
+		if o.NoInvoke && nout == 0 {
+			nout = 1
+		}
 		if r.Intn(100) < o.PredPct {
 			pf := g.newFn("pred")
 			pf.Ins = pickIns(2)
@@ -163,7 +167,7 @@ func GenFlow(r *Rand, name string, o GenOpts) *Program {
 		}
 	}
 	for len(left) > 0 {
-		if r.Chance(6, 10) {
+		if o.NoInvoke || r.Chance(6, 10) {
 			f.Results = append(f.Results, left[0])
 			left = left[1:]
 			continue
